@@ -67,6 +67,8 @@ def lenclass(n: int) -> str:
 def _h(v: Any) -> str:
     if isinstance(v, (bytes, bytearray)):
         v = bytes(v)
+        if not v:
+            return "b''"
         return v.hex() if len(v) <= 40 else f"{v[:32].hex()}..({len(v)}B)"
     return repr(v)
 
@@ -907,7 +909,7 @@ def build_tasks(tier: str, seed: int) -> list:
             for i, (kp, np_) in enumerate(pairs):
                 T.append({"k": "ccm", "klen": klen, "kpat": kp, "nlen": nlen, "npat": np_, "mpat": "msgctr" if i % 2 else "seeded",
                           "tags": [4, 6, 8, 10, 12, 14, 16], "aads": [0, 1, 16, 17] + ([] if q else [13, 14, 15, 32, 33]),
-                          "maxlen": maxlen if q else 144, "big": BIG_LENS if i == 0 else [], "tamper_lens": [0, 1, 16, 33],
+                          "maxlen": maxlen, "big": BIG_LENS if i == 0 else [], "tamper_lens": [0, 1, 16, 33],
                           "edges": i == 0 and nlen == 13})
         # AAD length encoding boundary 0xFEFF / 0xFF00 (2-byte vs 6-byte length prefix)
         T.append({"k": "ccm", "klen": klen, "kpat": "seeded", "nlen": 12, "npat": "seeded", "mpat": "msgctr", "tags": [8, 16],
